@@ -16,7 +16,7 @@
                      not another spelling of Host/Cookie/Authorization/Referer), no value and no line contains CR or LF
      read_head b     an independent reader (Spec/HttpWire.v); fl_values_ci n fl = the values of the fields a reader
                      that ignores case takes for name n
-   All four hold for EVERY configuration, jar, URL, parent, login, chain [rs] of any length, and every request index. *)
+   All hold for EVERY configuration, jar, URL, parent, login, chain [rs] of any length, and every request index. *)
 From Coq Require Import List NArith Bool String.
 From Wpull Require Import Lib.Hex Model.HttpReq Spec.HttpWire Proofs.HttpReqProofs Proofs.HttpReqInv Proofs.HttpReadProofs.
 Import ListNotations.
